@@ -29,6 +29,8 @@ def run(ctx):
     distinct = set()
     # ---------------- decoders
     inputs = []   # (kind, flags, blob, label, has_bcj)
+    tail_of = {}   # input index -> how many trailing bytes get every two-piece split
+    head_of = {}   # input index -> offset of the Index field (splits around its first bytes are tried too)
     NV = 25 if ctx.quick() else 400
     for _ in range(NV):
         f, e, d = xzgen.gen_valid_xz(rng, 400 if ctx.quick() else 5000)
@@ -73,6 +75,13 @@ def run(ctx):
     if gf: raise BuildError('oracle failed %r' % (gf[0],))
     for (cmd, lc, lp, pb), hx in zip(gl, go):
         inputs.append((3, 0, xzgen.alone_wrap(bytes.fromhex(hx), lc, lp, pb), 'lzma-model-generated:' + cmd[8:120], False))
+    # Streams with many tiny Blocks: multi-byte Number of Records, long Index (every split inside Index and Footer is tried below)
+    for nb in ([130, 129] if ctx.quick() else [128, 130, 200, 1000, 16390]):
+        mb, mexp, ilen = xzgen.gen_many_blocks(rng, nb)
+        inputs.append((0, LZMA_CONCATENATED, mb, 'many-blocks:%d' % nb, False)); inputs.append((2, 0, mb, 'many-blocks-auto:%d' % nb, False))
+        if nb <= 200: inputs.append((1, 0, mb, 'many-blocks-mt:%d' % nb, False))
+        for q in range(1, 4 if nb <= 200 else 3):
+            tail_of[len(inputs) - q] = min(ilen, 700) + 14; head_of[len(inputs) - q] = len(mb) - 12 - ilen
     # corpus of recorded findings (known/): run first, classified by key
     import json as _json
     for kp in sorted(glob.glob(os.path.join(VERIF, 'known', 'C06-*.json'))):
@@ -82,7 +91,7 @@ def run(ctx):
         jobs += [(idx, 0, 0), (idx, 1, 0), (idx, 2, 0), (idx, 3, rng.randrange(1 << 20)), (idx, 3, rng.randrange(1 << 20))]
         if k <= 4: jobs += [(idx, 16 + rng.choice([0, 1, 3]), rng.randrange(1 << 20))]      # after partial use and re-initialisation of the same handle
         n = len(b)
-        offs = range(1, n) if n <= (260 if ctx.quick() else 1200) else sorted(rng.sample(range(1, n), 60))
+        offs = range(1, n) if n <= (260 if ctx.quick() else 1200) else sorted(set(rng.sample(range(1, n), 60)) | set(range(max(1, n - tail_of.get(idx, 40)), n)) | set(range(head_of[idx] - 3, head_of[idx] + 9) if idx in head_of else []))   # + every split in the tail (Index, Footer) and around the start of the Index
         jobs += [(idx, 4, o) for o in offs]
     lines = ['dec %d %d %d %d 0 %s' % (inputs[i][0], inputs[i][1], m, s, inputs[i][2].hex() or '-') for i, m, s in jobs]
     outs, fails = run_lines(drv, lines)
@@ -150,11 +159,20 @@ def run(ctx):
     for d in datas:
         if len(d) < 100: continue
         for bs in (1, 4):
+          for preset in (1, 6):      # fast and normal mode (normal mode keeps price tables: a worker's 2nd Block must not see the 1st)
             for th in range(0, 4):
                 for to in (0, 1, 2):
-                    cfg = 1 | (4 << 8) | (th << 12) | (to << 16) | (bs << 20)
+                    if preset == 6 and to == 2: continue
+                    cfg = preset | (4 << 8) | (th << 12) | (to << 16) | (bs << 20)
                     m, s = rng.choice([(0, 0), (3, rng.randrange(1 << 20))])
-                    elines.append('enc 1 %d %d %d - %s' % (cfg, m, s, d.hex())); emeta.append((('mt', bs, id(d)), m, (th, to, s), d))
+                    elines.append('enc 1 %d %d %d - %s' % (cfg, m, s, d.hex())); emeta.append((('mt', bs, preset, id(d)), m, (th, to, s), d))
+    # a coder that was used before (re-initialised on the same lzma_stream after partial use) writes the same bytes as a fresh one
+    for d in datas:
+        if len(d) < 100 or len(d) > 100000: continue
+        for (k, cfg, fs) in [(0, 6 | (1 << 8), '-'), (0, 4 | (4 << 8), '-'), (1, 6 | (4 << 8) | (1 << 12) | (2 << 20), '-'), (4, 1 << 8, 'lzma2:dict=64KiB,mode=normal,mf=bt4,nice=64'), (4, 4 << 8, 'x86+lzma2:preset=5')]:
+            elines.append('enc %d %d 0 0 %s %s' % (k, cfg, fs, d.hex())); emeta.append((('reuse', k, cfg, fs, id(d)), 0, 'fresh', d))
+            for _r in range(3):
+                elines.append('enc %d %d %d %d %s %s' % (k, cfg | (1 << 29), rng.choice([0, 3]), rng.randrange(1 << 20), fs, d.hex())); emeta.append((('reuse', k, cfg, fs, id(d)), 0, 're-initialised', d))
     # textual vs structural chain
     for d in datas[:4]:
         for p in (0, 3, 6):
